@@ -65,6 +65,10 @@ vars == <<pending, nextId, nops, out, added, rets, hist, fin>>
 -----------------------------------------------------------------------------
 \* The order.  Event.precedence as set by the three constructors.
 Prec(k) == CASE k = "Unplug" -> 0 [] k = "Plugin" -> 10 [] k = "Recompute" -> 20
+             \* a plain Event(timestamp) - the public base class, e.g. of a user's own event types - carries the
+             \* documented attribute `precedence` (default +inf: after everything else in its period); a caller may set it,
+             \* here to -inf ("Urgent": before everything else).  Only the order of the values matters.
+             [] k = "Urgent" -> -1000 [] k = "Base" -> 1000
 
 \* (ts, precedence) lexicographic: what tuple comparison + Event.__lt__ compute.
 KeyLeq(a, b) == a.ts < b.ts \/ (a.ts = b.ts /\ Prec(a.kind) <= Prec(b.kind))
@@ -232,7 +236,9 @@ GetCurrentOutcomes(t) ==
 \* named so that -coverage reports one line per call
 DoAdd        == \E ts \in Ts, k \in Kinds : Add(ts, k)
 DoAddMany    == \E b \in Batches : AddMany(b)
-DoAddManyFail == \E b \in Batches : \E k \in 0..(Len(b) - 1) : AddManyFail(b, k)
+\* (offered with the source failing at its last element: all but one event of the batch were produced - any earlier
+\* failure point is the same call with a shorter batch)
+DoAddManyFail == \E b \in Batches : Len(b) >= 2 /\ AddManyFail(b, Len(b) - 1)
 DoGetEvent   == CanCall /\ \E e \in GetEventOutcomes : GetEvent(e)
 GetCurrentAt(t) == CanCall /\ \E r \in GetCurrentOutcomes(t) : GetCurrent(t, r)
 DoGetCurrent == \E t \in Probes : GetCurrentAt(t)
@@ -318,7 +324,7 @@ T7_DrainSorted ==
 
 \* The same in the words of the property, with the order written out independently of Prec/KeyLeq:
 \* timestamps never decrease; at equal timestamps unplug comes before plug-in before recompute.
-Rank(k) == CASE k = "Unplug" -> 1 [] k = "Plugin" -> 2 [] k = "Recompute" -> 3
+Rank(k) == CASE k = "Urgent" -> 0 [] k = "Unplug" -> 1 [] k = "Plugin" -> 2 [] k = "Recompute" -> 3 [] k = "Base" -> 4
 T8_TimeThenUnplugPluginRecompute ==
     Hist => \A i, j \in 1..Len(rets) :
                 (i < j /\ rets[j].ev.id <= rets[i].hi) =>
